@@ -49,8 +49,16 @@ def eligible(t):
 
 def plan(tier, seed):
     targets = C.cat()[0]
-    idx = list(range(len(targets)))
-    return [{"targets": part} for part in C.split_round_robin(idx, 32)]
+    # all definitions of one class/ID (every mode and variant) go to the same
+    # shard = the same process, so that state leaking from one mode's parse into
+    # another's (caches keyed without the mode) is exercised
+    groups = {}
+    for i, t in enumerate(targets):
+        groups.setdefault(t.clsid, []).append(i)
+    shards = [[] for _ in range(32)]
+    for j, (_k, g) in enumerate(sorted(groups.items())):
+        shards[j % 32].extend(g)
+    return [{"targets": part} for part in shards if part]
 
 
 def case_strategy(t, bf, tier):
